@@ -137,7 +137,7 @@ PROP = {
                              "ref_invalid": 3700, "applied_ca": 400, "applied_cu": 350, "applied_na": 270,
                              "premature_reprocessed": 60, "future_reinjected": 7,
                              # zombie phase (shape x signer x direction; ~half of the minimum over seeds 1-5)
-                             "oracle_zombie_evals": 6300, "z_cu": 2300, "z_made": 560, "z_may_resurrect": 245,
+                             "oracle_zombie_evals": 6300, "z_cu": 2300, "z_made": 560, "z_node_announcements_of_channelless_node": 110, "z_may_resurrect": 245,
                              "z_must_reject": 2050, "z_rejected_ok": 2050, "z_resurrected_ok": 210,
                              "z_fresh_yes": 1400, "z_fresh_no": 920, "z_readded_after_resurrection": 79,
                              "z_readded_with_stashed_update": 52, "z_made_direct_both": 80,
@@ -198,7 +198,7 @@ PROP = {
                    "thorough": {"msgs": 270000, "oracle_graph_evals": 280000, "oracle_bcast_evals": 55000,
                                 "ref_invalid": 210000, "applied_ca": 20000, "applied_cu": 19000,
                                 "applied_na": 15000, "premature_reprocessed": 3800, "future_reinjected": 380,
-                                "oracle_zombie_evals": 315000, "z_cu": 115000, "z_made": 28000,
+                                "oracle_zombie_evals": 315000, "z_cu": 115000, "z_made": 28000, "z_node_announcements_of_channelless_node": 5500,
                                 "z_may_resurrect": 12250, "z_must_reject": 102500, "z_rejected_ok": 102500,
                                 "z_resurrected_ok": 10500, "z_fresh_yes": 70000, "z_fresh_no": 46000,
                                 "z_readded_after_resurrection": 3950, "z_readded_with_stashed_update": 2800,
